@@ -172,6 +172,17 @@ def read_doc(acc, cls, reader, path, payload, key, allow_reject=True, expected=N
     except Exception:  # noqa: BLE001
         acc.count("document-rejected-by-reader:" + reader)
         return
+    if int(S.digest(key)[:6], 16) % 5 == 0:
+        # the same reader object asked again: the second model is judged too
+        try:
+            rd = R(path)
+            with contextlib.redirect_stderr(io.StringIO()):
+                rd.transform()
+                m_again = rd.transform()
+            judge_model(acc, cls + "|second-transform-on-one-reader", reader, m_again, payload, S.digest([key, "again"]))
+        except Exception as e:  # noqa: BLE001
+            acc.fail(cls + "|second-transform-on-one-reader", "document-accepted-again", reader, [], f"raises:{type(e).__name__}",
+                     f"second transform() on one reader: {type(e).__name__}: {str(e)[:120]}", payload, S.digest([key, "again"]))
     if expected is not None and len(expected.get("ctcs", [])) == len(m.ctcs):
         # "asking a constraint for its features returns exactly the feature names written in it": the names
         # written in the DOCUMENT (known from the reference spec it was emitted from)
@@ -236,7 +247,7 @@ def run_shard(desc, acc):
             read_doc(acc, "emitted|UVLReader", "UVLReader", path, {"kind": "doc", "reader": "UVLReader", "ext": "uvl",
                                                                     "text": text}, S.digest(text))
         for fmt in ("fide", "fama", "afm", "glencoe"):
-            cl = c09.spec_classes(fmt)
+            cl = [c for c in c09.spec_classes(fmt) if "very-long" not in c[0]]   # (C09 judges those; consumers here are slow on them)
             for j in range(desc["n_emit"]):
                 r = rand.rng(seed, "c02emit", fmt, i, j)
                 spec, tags = inject.apply(inject.base(r, 4, 12), r.sample(cl, r.randint(1, 4)), r)
@@ -289,6 +300,37 @@ def run_shard(desc, acc):
                          bad or "constraint count differs", payload, S.digest(text))
                 continue
             judge_model(acc, "emitted|JSONReader", "JSONReader", mj, payload, S.digest(text))
+            # second public entry point: the already decoded document is handed to parse_json, more than once
+            # (an application that keeps the decoded document); every model returned is judged like the first
+            if j % 2 == 0:
+                import json as _json
+                doc = _json.loads(text)
+                for turn in (1, 2, 3):
+                    clsj = f"emitted|JSONReader.parse_json|call-{turn}-on-one-decoded-document"
+                    try:
+                        mk = JSONReader.parse_json(doc)
+                    except Exception as e:  # noqa: BLE001
+                        if turn > 1:
+                            acc.fail(clsj, "document-accepted-again", "JSONReader.parse_json", [], f"raises:{type(e).__name__}",
+                                     f"call {turn} on the same decoded document: {type(e).__name__}: {str(e)[:120]}", payload,
+                                     S.digest([text, turn]))
+                        break
+                    bad = None
+                    for c0, c1 in zip(exp["ctcs"], mk.ctcs):
+                        try:
+                            got = set(c1.get_features())
+                        except Exception as e:  # noqa: BLE001
+                            bad = f"get_features raises {type(e).__name__}"
+                            break
+                        if got != S.ast_names(c0["ast"]):
+                            bad = (f"call {turn}: constraint {c0['name']!r}: get_features gives {sorted(got)[:5]}, the document "
+                                   f"writes {sorted(S.ast_names(c0['ast']))[:5]}")
+                            break
+                    if bad or len(exp["ctcs"]) != len(mk.ctcs):
+                        acc.fail(clsj, "features-are-the-names-written", "JSONReader.parse_json", [], "names-differ",
+                                 bad or "constraint count differs", payload, S.digest([text, turn]))
+                        break
+                    judge_model(acc, clsj, "JSONReader.parse_json", mk, payload, S.digest([text, turn]))
         files = [(p, s) for p, s in corpus.fama_files() if (s or 0) <= desc["corpus_max"]]
         for j, (p, s) in enumerate(files):
             if j % n == i:
